@@ -177,6 +177,18 @@ theorem Stages.terminal (s : Stages order es cx g st nodes1 vis) (hes : SplitsNE
     simp only [Node.next, List.map_eq_nil_iff] at hnext
     exact absurd hnext this
 
+/-- flattened: when the visiting order covers every key, no splitter of the result points at a splitter -/
+theorem Stages.flattened (s : Stages order es cx g st nodes1 vis) (hord : ∀ k ∈ akeys st.nodes, k ∈ order st.nodes)
+    (k : String) (ss : List CSplit) (lb : Option String) (h : alook k g.nodes = some (.splitter ss lb)) :
+    ∀ x ∈ ss, ∀ n, alook x.next g.nodes = some n → n.isSplitter = false := by
+  obtain ⟨_, hn⟩ := (s.look k _).mp h
+  have hk : k ∈ order st.nodes := by
+    apply hord
+    rw [← s.flatInv.keys]
+    exact alook_key_mem hn
+  intro x hx n hxn
+  exact flattenLoop_flat _ _ _ _ s.flat k hk ss lb hn x hx n ((s.look _ n).mp hxn).2
+
 /-- nothing unused: every node of the result is reachable from the start node within the result -/
 theorem Stages.reachable (s : Stages order es cx g st nodes1 vis) :
     ∀ k ∈ akeys g.nodes, Reach g.nodes g.start k := by
